@@ -518,7 +518,7 @@ func runSigCase(t fataler, e *sigEnv, cs []cand) {
 
 // TestSigBytes: the verifier pipeline accepts exactly the canonical encoding of Sign(sk, msg).
 func TestSigBytes(t *testing.T) {
-	stats.Check(t, 150, 1500, func(t *rapid.T) {
+	stats.Check(t, 120, 1500, func(t *rapid.T) {
 		sk := genSeckey(t, "sk")
 		msg := genMsg().Draw(t, "msg")
 		e := honest(t, sk, msg)
@@ -681,7 +681,7 @@ func safeBool(f func() bool) (ok bool, panicked interface{}) {
 
 // TestPubkeyBytes: an honest signature verifies only under bytes that encode the signer's public key.
 func TestPubkeyBytes(t *testing.T) {
-	stats.Check(t, 100, 1000, func(t *rapid.T) {
+	stats.Check(t, 80, 1000, func(t *rapid.T) {
 		sk := genSeckey(t, "sk")
 		msg := genMsg().Draw(t, "msg")
 		e := honest(t, sk, msg)
@@ -696,7 +696,7 @@ func TestPubkeyBytes(t *testing.T) {
 // ---------- round trips ----------
 
 func TestRoundTrips(t *testing.T) {
-	stats.Check(t, 400, 4000, func(t *rapid.T) {
+	stats.Check(t, 300, 4000, func(t *rapid.T) {
 		// a panic inside the property is turned into a failure by rapid itself
 		skA, skB := genSeckey(t, "skA"), genSeckey(t, "skB")
 		msg := genMsg().Draw(t, "msg")
@@ -834,7 +834,7 @@ func TestPairingLaws(t *testing.T) {
 		// informational only: gfP12Gen is e(g1,g2) in the upstream library
 		stats.Note("gt_generator", "GT.ScalarBaseMult(1) != e(g1,g2)")
 	}
-	stats.Check(t, 250, 2500, func(t *rapid.T) {
+	stats.Check(t, 200, 2500, func(t *rapid.T) {
 		a, b := genScalar().Draw(t, "a"), genScalar().Draw(t, "b")
 		if rapid.IntRange(0, 19).Draw(t, "zeroA") == 0 {
 			a = new(big.Int)
